@@ -863,7 +863,7 @@ TRUSTED = [
 
 COQ_FILES = ["C11/Model.v", "C11/NodeProofs.v", "C11/Election.v", "C11/Refute.v", "C11/LogProofs.v", "C11/LogMatching.v", "C11/Progress.v",
          "C11/Steps.v", "C11/Ghost.v", "C11/LC.v", "C11/Stab.v", "C11/Step.v", "C11/Step2.v", "C11/Completeness.v", "C11/Progress2.v", "C11/Liveness.v",
-         "Base/PyLib.v", "Gen/RaftLogGen.v", "C11/GenTie.v", "C11/Props.v"]
+         "Base/PyLib.v", "Gen/RaftLogGen.v", "C11/GenTie.v", "C11/CommitTie.v", "C11/Props.v"]
 
 
 # --------------------------------------------------------------------------- small-scope exhaustive exploration (search only)
